@@ -152,4 +152,13 @@ example :
     lookup [0x72] (crashAt ops 5 fs) = some [9, 9] ∧ lookup [0x72] (crashAt ops 6 fs) = some [0, 1] ∧
       lookup [0x6f] (crashAt ops 6 fs) = some [1] := by decide
 
+/-- removing the record before renaming the temporary file over it (a seeded change of the second wave) is not
+crash-atomic: after a crash between the two calls the record is gone, and a fresh process takes that for a session
+that never existed (kernel-evaluated on a concrete directory: record `[1]` holding `[7]`, temporary file `[2]` holding
+the new content `[8]`) -/
+theorem remove_before_rename_loses_record :
+    lookup [1] (crashAt [.unlink [1], .rename [2] [1]] 1 [([1], [7]), ([2], [8])]) = none ∧
+    startSession (σ := Bytes) some [1] (crashAt [.unlink [1], .rename [2] [1]] 1 [([1], [7]), ([2], [8])]) = .fresh ∧
+    lookup [1] (crashAt [.unlink [1], .rename [2] [1]] 2 [([1], [7]), ([2], [8])]) = some [8] := by decide
+
 end Vise.C12
